@@ -3,7 +3,7 @@
 From RB Require Import Base.Prelude Sig.Types Sig.Parser Sig.ParserProofs Sig.Validator Sig.ValidatorProofs
   Wire.Bytes Wire.Align Wire.Text Wire.Value Wire.SpecEnc Wire.Marshal Wire.Decode Wire.Unmarshal Wire.HasSig Wire.Body
   Wire.Relabel Wire.MarshalProofs Wire.DecodeSoundLemmas Wire.Derive Wire.Enums Wire.EnumsTotal Wire.Limits Wire.LimitsProofs Wire.LimitsBounds Wire.LimitsSend Wire.LimitsKnown Wire.ParserTotal.
-From RB Require Conn.Recv Wire.LimitsRecv.
+From RB Require Conn.Recv Wire.LimitsRecv Msg.Header Wire.LimitsEntry.
 
 (* n variants in each other around a variant holding the byte 7: n+1 containers *)
 Definition nested_variants (n : nat) : list N := concat (repeat [1; 118; 0] n) ++ [1; 121; 0; 7].
@@ -149,3 +149,21 @@ Example de1_decodes :
 Proof. vm_compute. reflexivity. Qed.
 Example de1_unknown_case : derive_enum_unmarshal 66 false de1_cases {| ubuf := [1; 116; 0; 0; 0; 0; 0; 0; 1; 0; 0; 0; 0; 0; 0; 0]; uoff := 0; unfds := 0; udepth := 0 |} = Err.
 Proof. vm_compute. reflexivity. Qed.
+
+(* the typed push of a params::Variant: 64 levels in all are accepted, 65 refused - exactly like the Param entry point *)
+Example variant_entry_64 :
+  snd (LimitsEntry.marshal_variant_param false (ty_of (nest_variant 63 (VBase BByte 7))) (nest_variant 63 (VBase BByte 7)) {| mbuf := []; mfds := 0 |}) = true.
+Proof. vm_compute. reflexivity. Qed.
+Example variant_entry_65 :
+  snd (LimitsEntry.marshal_variant_param false (ty_of (nest_variant 64 (VBase BByte 7))) (nest_variant 64 (VBase BByte 7)) {| mbuf := []; mfds := 0 |}) = false.
+Proof. vm_compute. reflexivity. Qed.
+
+(* the message limit over the header model: a method call with a one byte body is marshalled, the header padded to 8 *)
+Definition call1 : Header.msg :=
+  Header.with_body (Header.build_call false [77] (Some [47; 97]) None None) [7] [121] 0.
+Example call1_marshals :
+  match Header.marshal_msg call1 5, Header.marshal_header call1 5 with
+  | Ok hb, Ok h => len hb = len (pad_to 8 h) /\ len hb mod 8 = 0 /\ len hb + 1 <= MAX_MESSAGE
+  | _, _ => False
+  end.
+Proof. vm_compute. repeat split; discriminate. Qed.
